@@ -184,7 +184,13 @@ class World:
             self.stats.skipped += 1
             return
         self.stats.note_step("user", op["op"] + ":" + str(op.get("what", "")), outcome)
-        self.stats.states.add(fp(op.get("what"), self.order_class(op.get("cls")), outcome))
+        shape = None
+        if self.h is not None and op.get("cls"):
+            c = next((c for c in self.h["classes"] if c["name"] == op["cls"]), None)
+            if c is not None:
+                fl = linear(self.h, op["cls"])
+                shape = (len(self._chain(op["cls"])), c["slots"], c["kw_only"], sorted({(f["kind"], f["init"], f["compare"], bool(f.get("override"))) for f in fl if f["kind"] != "special"}))
+        self.stats.states.add(fp(op.get("what"), self.order_class(op.get("cls")), outcome, shape))
 
     # ---- ops
     def op_define(self, op: dict[str, Any]) -> str:
